@@ -444,6 +444,32 @@ def _work_raster(batch):
     return col.pack()
 
 
+def check_sparse_file_points(col, pts3, via):
+    """Point lists with coordinates a narrower float type cannot hold exactly: the map loaded from the file returns scale x the
+    stored height at exactly the coordinates written in the file."""
+    data = [[20.2 + 0.1 * p[0], 40.7 - 0.3 * p[1], float(p[2]) + 0.125] for p in pts3]
+    try:
+        m = load_sparse(numpy.array(data, dtype=float), via)
+    except Exception as e:                                           # noqa: BLE001
+        col.violation("sparse:from_path-raised", f"points {data} written as .{via}: from_path raised {e!r}", {"kind": "sparse-file", "points": [list(p) for p in pts3], "via": via})
+        return
+    for scale in SCALES:
+        m.set_scale(scale)
+        for x, y, z in data:
+            col.count("depth_queries")
+            col.count("depth_queries_demanded")
+            try:
+                v = float(m.get_depth_at(x, y))
+            except Exception as e:                                   # noqa: BLE001
+                col.violation("sparse:get_depth_at-raised", f"get_depth_at({x}, {y}) raised {e!r}", {"kind": "sparse-file", "points": [list(p) for p in pts3], "via": via})
+                continue
+            if not abs(v - scale * z) <= 1e-9 * max(1.0, abs(scale * z)):
+                col.violation("sparse:wrong-height-at-stored-point:file",
+                              f"points {data} written as .{via}, scale {scale}: get_depth_at({x!r}, {y!r}) = {v!r}, expected scale*stored height = {scale * z!r}",
+                              {"kind": "sparse-file", "points": [list(p) for p in pts3], "via": via})
+    col.count("file_backed_maps")
+
+
 def _work_files(batch):
     """Maps loaded from real files through from_path (PNG/TIFF images, CSV/TSV point lists)."""
     col = Collector()
@@ -461,6 +487,8 @@ def _work_files(batch):
                                   {"kind": "raster", "image": [list(r) for r in rows], "dtype": "uint8" if bits == 8 else "uint16", "via": via,
                                    "scale": 1.0, "tolerance": None, "query": None, "line": None})
             col.count("file_backed_maps")
+        elif kind == "sparse-file":
+            check_sparse_file_points(col, spec, via)
         else:
             if False not in _SPARSE_LINES:
                 _SPARSE_LINES[False] = sparse_lines(False)
@@ -846,6 +874,7 @@ def run(tier, seed):
     step = 4 if tier == "quick" else 1
     f_items = [("raster", spec, "png") for spec in family[::step]] + [("raster", spec, "tiff") for spec in family[1::2 * step]]
     f_items += [("sparse", p, "csv") for p in sparse[::20 * step]] + [("sparse", p, "tsv") for p in sparse[7::40 * step]]
+    f_items += [("sparse-file", p, "csv") for p in sparse[3::20 * step]] + [("sparse-file", p, "tsv") for p in sparse[11::40 * step]]
     packs += pmap(_work_files, _batches(f_items, 8), chunksize=1)
 
     stats, outcomes = {}, set()
@@ -892,7 +921,8 @@ def run(tier, seed):
             "both scales, plus one 3-unit line at tolerance 0.05, scale 1; rich set = every ordered pair of 8 end points at 0.378 and 6 lines at 0.05, both "
             "scales; " + ("rich for the 4-point sets, lean for the 5- and 6-point sets" if tier == "thorough" else "lean for every set")
             + ". FLAT: same queries, 64 lines. FILES: " + ("every" if tier == "thorough" else "every 4th") + " family image written losslessly as PNG (and every other one of those as TIFF), "
-            "point sets written as CSV/TSV, loaded with from_path and put through the same height queries and a reduced line set; "
+            "point sets written as CSV/TSV, loaded with from_path and put through the same height queries and a reduced line set; point sets with "
+            "coordinates of the form 20.2 + 0.1 i (not exactly representable in a narrower float type) written to files and queried at exactly the stored coordinates; "
             "after every set_scale / change of tolerance on a live map the line sampled last is sampled again and must carry the heights the map reports now; "
             "evaluations = get_depth_at queries + sample_path calls issued by the grid (re-evaluations for the oracle not counted). "
             "distinct_nontrivial = distinct (map, full outcome vector) digests over maps that are non-trivial: raster maps returning at least one non-zero "
@@ -923,6 +953,8 @@ def replay(body):
     obs = {}
     if rp["kind"] == "flat":
         check_flat(col)
+    elif rp["kind"] == "sparse-file":
+        check_sparse_file_points(col, tuple(tuple(float(v) for v in p) for p in rp["points"]), rp["via"])
     elif rp["kind"] == "raster":
         rows = tuple(tuple(int(v) for v in r) for r in rp["image"])
         bits = 8 if rp["dtype"] == "uint8" else 16
